@@ -42,7 +42,7 @@ STATE = {"sched": Sched(), "events": [], "inflight": 0, "max_inflight": 0, "orde
 
 
 def reset(choices=()):
-    STATE.update(sched=Sched(choices), events=[], inflight=0, max_inflight=0, order=0, waits=0, sleeps=0)
+    STATE.update(sched=Sched(choices), events=[], inflight=0, max_inflight=0, order=0, waits=0, sleeps=0, rounds=0, all_complete=False)
 
 
 class BudgetExceeded(Exception):
@@ -120,6 +120,8 @@ class FakeAsyncio:
             if t is first:
                 continue
             c = s.next(3)          # 0: stays queued, 1: becomes visibly running, 2: completes too
+            if STATE.get("all_complete"):
+                c = 2              # restricted schedules: every submitted job completes before the next wake-up
             if c == 1:
                 t.make_visible()
             elif c == 2:
@@ -187,8 +189,21 @@ class ScriptedWorker(Worker):
         return res
 
 
+_real_grt = SUB.Submitter.get_runnable_tasks
+
+
+def _budgeted_grt(self, graph):
+    """termination budget derived from the code: every round of either execution loop must hand out or
+    retire at least one job, so a workflow of n jobs needs at most n+1 rounds (+11 for the stall detector)"""
+    STATE["rounds"] = STATE.get("rounds", 0) + 1
+    if STATE["rounds"] > 120:
+        raise BudgetExceeded("get_runnable_tasks called more than 120 times for a workflow of < 10 jobs")
+    return _real_grt(self, graph)
+
+
 def install():
     SUB.asyncio = FakeAsyncio
+    SUB.Submitter.get_runnable_tasks = _budgeted_grt
 
 
 def submitter(cache_root, max_concurrent=None, **kw):
